@@ -400,3 +400,59 @@ def r7(R):
               'vanished from _transactionalUndoRecord')
     for v in vs:
         R.violation(v.node, v.message, g, v.path)
+
+
+# ------------------------------------------------------------------ C06.R8
+@rule('C06.R8', 'for blob records "the current record equals the record '
+      'being undone" does not mean nothing changed (their bytes live in '
+      'files): undo consults the record\'s blob-ness before it copies',
+      props=['C13'], min_instances=1)
+def r8(R):
+    cls = R.prog.cls(FS)
+    f = R.method(cls, '_transactionalUndoRecord')
+    g, b, F = R.cfg(f, cls, max_depth=0)
+    R.instance('FileStorage._transactionalUndoRecord equal branch')
+    seen = [0]
+
+    def edge(node, st, lab, tgt):
+        if node.kind == 'test' and lab in ('T', 'F'):
+            if any(isinstance(c, ast.Call) and dotted(c.func) and
+                   dotted(c.func)[-1] == 'is_blob_record'
+                   for c in ast.walk(node.ast)) and st == 'equal':
+                return 'checked'
+            for e, truth in implied_atoms(node.ast, lab):
+                if isinstance(e, ast.Compare) and len(e.ops) == 1 and \
+                        isinstance(e.ops[0], (ast.Eq, ast.NotEq)) and \
+                        isinstance(e.left, ast.Name) and isinstance(
+                            e.comparators[0], ast.Name):
+                    names = {e.left.id, e.comparators[0].id}
+                    defs = b.local_defs(f)
+                    loaded = [n_ for n_ in names if any(
+                        isinstance(d, ast.AST) and any(
+                            isinstance(c, ast.Call) and dotted(c.func) and
+                            dotted(c.func)[-1].startswith('_loadBack')
+                            for c in ast.walk(d))
+                        for d in defs.get(n_, []))]
+                    if loaded:
+                        seen[0] += 1
+                        same = isinstance(e.ops[0], ast.Eq) == truth
+                        return 'equal' if same else 'differs'
+        return st
+
+    def at(node, st):
+        if st == 'equal' and node.kind == 'return' and \
+                node.frame.parent is None:
+            return Violation(
+                'undo copies the earlier state forward because the current '
+                'record equals the record being undone, without looking '
+                'whether they are blob records: all records of a blob '
+                'hold the same pickle, so a later rewrite of the blob is '
+                'not noticed and is silently discarded by the undo')
+        return st
+
+    vs, stats = explore(g, 'start', at=at, edge=edge)
+    R.count(stats)
+    R.require(seen[0] or vs, 'the data comparison vanished from '
+              '_transactionalUndoRecord')
+    for v in vs:
+        R.violation(v.node, v.message, g, v.path)
